@@ -294,12 +294,12 @@ def jobs(tier, seed):
     js = []
     if tier == 'quick':
         combos = [('cycle', 'r'), ('redir', 'r'), ('reqs', 'r-p'), ('depth', 'r-l2'),
-                  ('cycle', 'r-t1'), ('twohost', 'r')]
+                  ('cycle', 'r-t1'), ('twohost', 'r'), ('twohost', 'r-sal')]
         concs = (1, 2)
     else:
         combos = [('cycle', 'r'), ('redir', 'r'), ('reqs', 'r-p'), ('depth', 'r-l2'),
                   ('spell', 'r'), ('twostart', 'r'), ('parent', 'r-np'), ('twohost', 'r'),
-                  ('cycle', 'r-t1'), ('reqs', 'r-t1')]
+                  ('cycle', 'r-t1'), ('reqs', 'r-t1'), ('twohost', 'r-sal')]
         concs = (1, 2)
     for s, o in combos:
         for c in concs:
